@@ -134,6 +134,14 @@ TABLE += [
        [("test", "call:is_size_valid&field:uncompressed_size", "T")], ("ret", END),
        src=("SEQ_CODE",), init_seq=("SEQ_CODE",), fail=DATA,
        why="Uncompressed Size matches the Block Header"),
+    MP("block:comp-size-before-publish", "block_decode", BD,
+       [("test", "call:is_size_valid&field:compressed_size", "T")], ("write", "field:block&field:compressed_size"),
+       src=("SEQ_CODE",), init_seq=("SEQ_CODE",),
+       why="the Compressed Size from the Block Header is compared before it is overwritten with the counted size"),
+    MP("block:uncomp-size-before-publish", "block_decode", BD,
+       [("test", "call:is_size_valid&field:uncompressed_size", "T")], ("write", "field:block&field:uncompressed_size"),
+       src=("SEQ_CODE",), init_seq=("SEQ_CODE",),
+       why="the Uncompressed Size from the Block Header is compared before it is overwritten with the counted size"),
     MP("block:check", "block_decode", BD,
        [("cmp", "field:raw_check", "field:check&field:buffer")], ("ret", END),
        src=("SEQ_CODE",), init_seq=("SEQ_CODE",), fail=DATA,
@@ -282,6 +290,106 @@ def check_trunc(ck, prog):
     ck.floor("C05-TRUNC", 12)
 
 
+FLAG_FIELDS = {"tell_no_check": "LZMA_TELL_NO_CHECK", "tell_unsupported_check": "LZMA_TELL_UNSUPPORTED_CHECK",
+               "tell_any_check": "LZMA_TELL_ANY_CHECK", "ignore_check": "LZMA_IGNORE_CHECK",
+               "concatenated": "LZMA_CONCATENATED", "fail_fast": "LZMA_FAIL_FAST"}
+
+
+def _width(prog, n):
+    """Width in bits of the C type an arithmetic expression is evaluated in (32 unless a 64-bit operand)."""
+    n = ex.deref(n)
+    if n is None:
+        return 32
+    k = n.get("k")
+    if k == "cast":
+        ty = (n.get("ty") or "").replace("const ", "")
+        if ty in ("lzma_vli", "uint64_t", "size_t", "unsigned long", "int64_t"):
+            return 64
+        if ty in ("uint32_t", "unsigned int", "int", "uint8_t", "uint16_t", "_Bool"):
+            return 32
+        return _width(prog, n["e"])
+    if k == "mem":
+        rec = prog.records.get(n.get("rec")) or {"fields": []}
+        for fd_ in rec["fields"]:
+            if fd_["n"] == n["f"]:
+                ty = (fd_.get("ty") or "").replace("const ", "")
+                return 64 if ty in ("lzma_vli", "uint64_t", "size_t") else 32
+        return 32
+    if k == "call":
+        return 64 if n.get("fn") in ("read64le", "read64be") else 32
+    if k == "const":
+        return 64 if n["v"] > 0xFFFFFFFF else 32
+    if k in ("bin",):
+        if n["op"] in ("<<", ">>"):
+            return _width(prog, n["l"])
+        return max(_width(prog, n["l"]), _width(prog, n["r"]))
+    if k == "un":
+        return _width(prog, n["e"])
+    return 32
+
+
+def check_flags_and_width(ck, prog):
+    ck.rule("C05-FLAGS", "each decoder flag member is derived from the flag constant of the same name")
+    n = 0
+    for f in prog.all_functions("liblzma"):
+        if not f.blocks:
+            continue
+        for b, i, e in f.iter_elems():
+            for (l, r, op, node) in ex.writes(e):
+                ls = ex.strip(l)
+                if ls is None or ls.get("k") != "mem" or ls["f"] not in FLAG_FIELDS or r is None or op != "=":
+                    continue
+                enums = sorted({x["n"] for x in ex.walk(r) if x.get("k") == "enum"} |
+                               {x.get("M") or x.get("m") for x in ex.walk(r) if (x.get("M") or x.get("m") or "").startswith("LZMA_")})
+                consts = [x["v"] for x in ex.walk(r) if x.get("k") == "const" and x["v"] > 0]
+                if not any(x.get("k") == "bin" and x["op"] == "&" for x in ex.walk(r)):
+                    continue        # copied from another member / constant
+                n += 1
+                want = FLAG_FIELDS[ls["f"]]
+                wantv = FLAG_VALUES[want]
+                ok = (consts == [wantv]) or (want in enums and len(consts) <= 1)
+                ck.saw_function(f)
+                ck.ob("C05-FLAGS", "%s:%s" % (f.name, ls["f"]), ok, common.where(f, node),
+                      "%s: %s = flags & %#x (%s)" % (f.name, ex.show(l), consts[0] if consts else 0, want) if ok else
+                      "%s(): member %s is derived from flag bit(s) %s instead of %s (%#x): the decoder %s" % (
+                          f.name, ls["f"], [hex(c) for c in consts], want, wantv,
+                          "skips integrity verification when the application did not ask for that"
+                          if ls["f"] == "ignore_check" else "misinterprets the application's flags"),
+                      key="FLAGS:%s:%s" % (f.name, ls["f"]))
+    ck.floor("C05-FLAGS", 12)
+    ck.rule("C05-WIDTH", "Backward Size is expanded with 64-bit arithmetic (a stored value >= 2^30 must not wrap)")
+    f = prog.fn("lzma_stream_footer_decode", "stream_flags_decoder.c")
+    ck.saw_function(f)
+    k = 0
+    for b, i, e in f.iter_elems():
+        for (l, r, op, node) in ex.writes(e):
+            if ex.show(l) != "options->backward_size" or r is None:
+                continue
+            def arith(n_):
+                n_ = ex.deref(n_)
+                if n_ is None or n_.get("k") == "call":
+                    return
+                if n_.get("k") == "bin" and n_["op"] in ("+", "*", "<<"):
+                    yield n_
+                for c_ in ex.children(n_):
+                    yield from arith(c_)
+            for x in arith(r):
+                if True:
+                    k += 1
+                    w = _width(prog, x)
+                    ck.ob("C05-WIDTH", "footer-backward-size@%d" % k, w >= 64, common.where(f, node),
+                          "lzma_stream_footer_decode: `%s` is evaluated in %d-bit arithmetic" % (ex.show(x), w) if w >= 64 else
+                          "lzma_stream_footer_decode(): `%s` is evaluated in 32-bit arithmetic: a stored Backward Size with "
+                          "bit 30 or 31 set wraps around and a damaged footer is accepted" % ex.show(x),
+                          key="WIDTH:footer-backward-size")
+    if k == 0:
+        raise AnalysisBroken("lzma_stream_footer_decode: Backward Size arithmetic not found")
+
+
+FLAG_VALUES = {"LZMA_TELL_NO_CHECK": 1, "LZMA_TELL_UNSUPPORTED_CHECK": 2, "LZMA_TELL_ANY_CHECK": 4,
+               "LZMA_IGNORE_CHECK": 0x10, "LZMA_CONCATENATED": 8, "LZMA_FAIL_FAST": 0x20}
+
+
 def run(ck):
     ck.explanation = (
         "Edge-cut rule on the resume-aware (block x finite state) product graph of every container "
@@ -301,3 +409,4 @@ def run(ck):
     evaluate_consume(ck, prog, "C05-PAD", PAD)
     ck.floor("C05-PAD", 5)
     check_trunc(ck, prog)
+    check_flags_and_width(ck, prog)
